@@ -564,6 +564,25 @@ int main(int argc, char **argv)
         if (decoder_process_int16(d, pcm[0], 100, 0, 0) > 0) failf("C09", "audio before start_utt is searched%s%s", NULL, NULL);
         (void)decoder_end_utt(d);
     }
+    if (want("C09")) {
+        /* grammars that name a word missing from the dictionary: refused, nothing freed twice, decoder still usable */
+        char path[700], mdl[600]; FILE *f; config_t *c2; decoder_t *d3;
+        scen = "grammar with a word that is not in the dictionary";
+        cases++; distinct++;
+        if (decoder_set_jsgf_string(d, "#JSGF V1.0;\ngrammar g;\npublic <s> = go zzyzzxq;\n") == 0) failf("C09", "JSGF grammar with an unknown word is accepted%s%s", NULL, NULL);
+        (void)decoder_set_align_text(d, "go zzyzzxq");
+        snprintf(path, sizeof path, "%s/e2e_unknown_%d.fsg", getenv("TMPDIR") ? getenv("TMPDIR") : "/tmp", (int)getpid());
+        f = fopen(path, "w");
+        if (f) {
+            fputs("FSG_BEGIN g\nNUM_STATES 2\nSTART_STATE 0\nFINAL_STATE 1\nTRANSITION 0 1 1.0 zzyzzxq\nFSG_END\n", f); fclose(f);
+            c2 = config_init(NULL);
+            snprintf(mdl, sizeof mdl, "%s/model/en-us", repo);
+            config_set_str(c2, "hmm", mdl); config_set_str(c2, "loglevel", "FATAL"); config_set_str(c2, "fsg", path);
+            d3 = decoder_init(c2);
+            if (d3) { failf("C09", "decoder_init accepts an FSG file with an unknown word%s%s", NULL, NULL); decoder_free(d3); }
+            unlink(path);
+        }
+    }
     set_gram(d, "goforward.gram", 0);
     if (want("C09")) {
         scen = "empty utterance / out-of-order calls";
@@ -639,6 +658,11 @@ int main(int argc, char **argv)
     scen = "en-us goforward.raw, forced alignment text";
     if (decoder_set_align_text(d, "go forward ten meters") < 0) failf("C09", "alignment text refused%s%s", NULL, NULL);
     decode(d, 0, ONE_CALL); check_all(d, 1);
+    /* word spellings with a quote and a backslash: the JSON line stays valid and says the same words */
+    scen = "en-us goforward.raw, a word spelled with a quote and a backslash";
+    if (decoder_add_word(d, "f\"or\\ward", "F AO R W ER D", 1) >= 0
+        && decoder_set_jsgf_string(d, "#JSGF V1.0;\ngrammar g;\npublic <s> = go f\"or\\ward ten meters;\n") == 0) { decode(d, 0, ONE_CALL); check_all(d, 1); }
+    else failf("C09", "word with a quote and a backslash is refused%s%s", NULL, NULL);
     /* one-phone words inside the sentence (cross-word contexts to both sides) */
     scen = "en-us goforward.raw, forced alignment text with one-phone words inside";
     if (decoder_set_align_text(d, "go a forward i ten oh meters") == 0) { decode(d, 0, ONE_CALL); check_all(d, 0); }
